@@ -22,6 +22,7 @@ def run(ctx, R, tier):
     hold(F, R)
     swap(F, R)
     c06.sib(F, R)
+    c06.prev(F, R)
 
 
 def once(F, R):
